@@ -11,14 +11,14 @@ import (
 )
 
 var c07Floor = []string{"cte.1", "cte.chain2", "cte.chain3", "cte.twice.join", "cte.twice.union", "cte.twice.insub", "cte.selector", "derived", "derived.where",
-	"subq.nested", "subq.root", "subq.in", "subq.agg", "exists", "exists.outer", "subq.root-correlated", "derived.join", "subq.with", "agg.stages", "exists.dual", "inner.agg", "inner.order", "inner.filter", "cte.mixedcase", "exists.outer.marker", "exists.sparse", "subq.in.null-left", "exists.shadow", "exists.outer.marker-is", "cte.named-like-its-table", "cte.nested-with", "cte.nested-with.twice", "cte.union-chain3", "subq.in.qualified-item", "subq.notin", "exists.naming.table-qualified", "exists.naming.alias", "exists.naming.alias-unqualified", "cte.chain-named-like-tables", "exists.shadow.aliased", "exists.outer.alias-path", "exists.outer.table-qualified", "derived.order-ties", "exists.shadow.ragged"}
+	"subq.nested", "subq.root", "subq.in", "subq.agg", "exists", "exists.outer", "subq.root-correlated", "derived.join", "subq.with", "agg.stages", "exists.dual", "inner.agg", "inner.order", "inner.filter", "cte.mixedcase", "exists.outer.marker", "exists.sparse", "subq.in.null-left", "exists.shadow", "exists.outer.marker-is", "cte.named-like-its-table", "cte.nested-with", "cte.nested-with.twice", "cte.union-chain3", "subq.in.qualified-item", "subq.notin", "exists.naming.table-qualified", "exists.naming.alias", "exists.naming.alias-unqualified", "cte.chain-named-like-tables", "exists.shadow.aliased", "exists.outer.alias-path", "exists.outer.table-qualified", "derived.order-ties", "exists.shadow.ragged", "exists.outer.alias-bare-nested"}
 
 func init() {
 	fw.Register(&fw.Prop{
 		ID:    "C07",
 		Title: "CTEs, derived tables and subqueries equal staged evaluation",
 		Level: "exploration",
-		Rule: "derived tables whose ORDER BY shows through ties of the outer ORDER BY; ragged nested rows under an alias in EXISTS. chains of CTEs that all carry names of document tables; EXISTS with the outer row named through its alias (also as the path to the nested table) or its table's own name, and a same-named element column under an alias. nested WITH scopes (also reading an outer CTE twice); union chains of 3..4 branches over a CTE; IN / NOT IN subqueries with bare, qualified and aliased items; EXISTS over dual; the nested table's columns named by its own name, by an alias, or without the alias inside EXISTS. EXISTS: elements of one array may have different key sets (IS [NOT] NULL on the sparse key), a nested column may be named like an outer column (the name means the element's), the marker also under IS [NOT] NULL; IN (subquery) with a NULL left operand. CTE names are drawn in lower, mixed and upper case; EXISTS predicates name outer columns bare or through the `<-` marker (with a same-named decoy at the root). each case = a document x a pipeline. CTE / derived-table pipelines (chains of 1..3 CTEs, a CTE referenced twice through a join, a UNION ALL or an IN-subquery, a CTE read through a selector `c.col`, aliased derived tables with q.-qualified outer columns) are executed composed and staged: " +
+		Rule: "with an aliased outer table the row's nested table named without the alias. derived tables whose ORDER BY shows through ties of the outer ORDER BY; ragged nested rows under an alias in EXISTS. chains of CTEs that all carry names of document tables; EXISTS with the outer row named through its alias (also as the path to the nested table) or its table's own name, and a same-named element column under an alias. nested WITH scopes (also reading an outer CTE twice); union chains of 3..4 branches over a CTE; IN / NOT IN subqueries with bare, qualified and aliased items; EXISTS over dual; the nested table's columns named by its own name, by an alias, or without the alias inside EXISTS. EXISTS: elements of one array may have different key sets (IS [NOT] NULL on the sparse key), a nested column may be named like an outer column (the name means the element's), the marker also under IS [NOT] NULL; IN (subquery) with a NULL left operand. CTE names are drawn in lower, mixed and upper case; EXISTS predicates name outer columns bare or through the `<-` marker (with a same-named decoy at the root). each case = a document x a pipeline. CTE / derived-table pipelines (chains of 1..3 CTEs, a CTE referenced twice through a join, a UNION ALL or an IN-subquery, a CTE read through a selector `c.col`, aliased derived tables with q.-qualified outer columns) are executed composed and staged: " +
 			"the inner query is run alone by the real engine, its result is deep-copied into a fresh copy of the document under the CTE/derived name, and the outer query is run over that plain data; the two results must be equal (sequence; multiset for joins). " +
 			"Row-scoped subqueries (select-list subquery over a nested array, over `<-table`, IN (subquery), aggregate subquery) must contribute, for every row, exactly what the subquery returns standalone on a deep copy of that row (or of the enclosing document after `<-`). " +
 			"EXISTS is judged by the reference predicate evaluator: true iff some element of the row's nested array satisfies p(element, outer row). Non-trivial = the outer result has >= 2 rows (pipelines) / at least one row with a non-empty and one with an empty contribution (subqueries) / EXISTS true for some rows and false for others; distinct = distinct (document, SQL).",
@@ -973,6 +973,11 @@ func c07Run(c *fw.Case) {
 				selFrom, fromArr = "SELECT x.rid FROM t1 x WHERE ", "x.arr"
 				ro.ColText["n1"] = "x.n1"
 				feats = append(feats, "exists.outer.alias-path")
+				if c.Chance(0.5) {
+					// ... or the nested table named as it is without the alias
+					fromArr = "arr"
+					feats = append(feats, "exists.outer.alias-bare-nested")
+				}
 			case 1:
 				ro.ColText["n1"] = "t1.n1"
 				feats = append(feats, "exists.outer.table-qualified")
